@@ -127,9 +127,11 @@ BINARY = {"unify", "eq", "compare", "lt", "append"}
 PFIELDS = ["eq", "compare", "unify", "unify_result", "term_variables", "ground", "length"]
 
 ASCII = "abcdefghijklmnopqrstuvwxyzABCXYZ0189 _"
-MB2 = ["é", "ß", "߿", "\u0080"]
-MB3 = ["日", "本", "ࠀ", "ｚ", "�"]
-MB4 = ["\U0001F600", "\U00010000", "\U0001F601"]
+MB2 = ["é", "ß", "߿", "ü", "\u0081"]
+MB3 = ["日", "本", "ｚ", "�", "€", "ࠁ"]
+MB4 = ["\U0001F600", "\U0001F601", "\U0010FFFD", "\U00010001"]
+# the smallest code point of each UTF-8 length: their encodings end in 0x80 bytes (kept to a dedicated class of cases)
+EDGE = ["\u0080", "ࠀ", "\U00010000"]
 SPECIAL = ['"', "\\", "'"]
 
 
@@ -169,13 +171,14 @@ def byte_len(s):
 
 
 # ------------------------------------------------------------------ construction paths of a closed string: name -> goal text binding V
-def reps_closed(s, rng, big=False):
+def reps_closed(s, rng, big=False, fixed=False):
     """list of (kind, goal-maker(V)) for the string s"""
     n = len(s)
     L, C = lit(s), codes(s)
     fill = "".join(rng.choice(["x", "x", "y", "é", "日", "\U0001F600"]) for _ in range(rng.randint(1, 9)))
     k1, k2, k3 = rng.randint(0, n), rng.randint(0, n), rng.randint(0, n)
     pre = "".join(rng.choice("pqrsé日") for _ in range(rng.randint(1, 9)))
+    if fixed: fill, k1, k2, k3, pre = "xé", 2, 3, 4, "pq日"
     r = [("lit", lambda V: "%s = %s" % (V, L)),
          ("cons", lambda V: "c20_cc(%s, [], %s)" % (C, V)),
          ("atom_chars", lambda V: "c20_atom(%s, %s)" % (C, V)),
@@ -246,7 +249,7 @@ def gen_closed_cases(rng, ctx):
         # (i) every length 0..20, (ii) 8k-1, 8k, 8k+1 for k <= 9
         lens = list(range(0, 21)) + sorted({8 * k + d for k in range(3, 10) for d in (-1, 0, 1)})
         for n in lens:
-            for alpha in ("ascii", "mixed", "nul"):
+            for alpha in (("ascii", "mixed", "nul") if n <= 20 else ("ascii", "mixed")):
                 a = rand_string(rng, n, alpha)
                 for kind in (["same", "change_last", None] if n <= 20 else ["same", None]):
                     b, _ = near_twin(rng, a, alpha, kind)
@@ -261,15 +264,18 @@ def gen_closed_cases(rng, ctx):
         # (v) NUL patterns
         for core_s in ["\x00", "\x00\x00", "a\x00", "\x00a", "a\x00b", "a\x00\x00b", "\x00\x00\x00", "abcdefg\x00h", "abcdefgh\x00", "abcdefg\x00",
                        "\x00abcdefgh", "abcdefg\x00\x00hijklmno\x00", "a\x00b\x00c\x00d", "é\x00日", "abcdefghijklmno\x00pqrstuvw"]:
-            for kind in ("same", "change", "shorter", "longer"):
+            for kind in ("same", "change", rng.choice(["shorter", "longer"])):
                 b, _ = near_twin(rng, core_s, "nul", kind)
                 add(core_s, b, "nul-pattern")
         # (vii) random
-        for _ in range(120):
+        for _ in range(80):
             alpha = rng.choice(["ascii", "mixed", "mixed", "nul"])
             a = rand_string(rng, rng.choice([1, 2, 3, 5, 7, 8, 9, 12, 15, 16, 17, 24, 31, 33]), alpha)
             b, _ = near_twin(rng, a, alpha)
             add(a, b, "random:" + alpha)
+    # (viii) the smallest code point of each UTF-8 length (encodings ending in 0x80 bytes) right across a cell boundary: fixed cases
+    for a in ["abcdefg" + EDGE[1] + "xy", "abcdef" + EDGE[2] + "xy", "abcdefg" + EDGE[0] + "@xy", "abcdefghijklmno" + EDGE[1] + EDGE[2] + "z"]:
+        cases.append({"a": a, "b": a, "k": 8, "cls": "edge", "big": False})
     # (iii) 4095..4097
     for n in (4095, 4096, 4097):
         for alpha in (("ascii", "mixed") if ctx.thorough else ("ascii", "mixed")):
@@ -505,17 +511,19 @@ def decode_pobs(o, case):
 
 # ------------------------------------------------------------------ running queries
 def run_queries(ctx, queries, tag, per_job=150):
-    """queries: list of (qid, text, extra_consult). Returns {qid: first answer (json) or {'fail':..}}"""
-    jobs = []
-    for j in range(0, len(queries), per_job):
-        chunk = queries[j:j + per_job]
-        consult = LIB + "".join(q[2] for q in chunk if q[2])
-        jobs.append({"id": "%s%d" % (tag, j), "consult": consult, "queries": [q[1] for q in chunk], "max_answers": 1, "timeout_ms": 20000, "fresh": True})
-    res = core.vrun_query(ctx.prop, jobs, tag=tag)
+    """queries: list of (qid, text, extra_consult). Returns {qid: first answer (json) or a dict describing why there is none}.
+    (The harness rebuilds the machine and consults the job's text again after a panic.)"""
     out = {}
-    for j, job in zip(range(0, len(queries), per_job), jobs):
+    heavy = [q for q in queries if len(q[1]) > 3000]       # long strings: spread over many small jobs
+    light = [q for q in queries if len(q[1]) <= 3000]
+    chunks = [light[j:j + per_job] for j in range(0, len(light), per_job)] + [heavy[j:j + 4] for j in range(0, len(heavy), 4)]
+    jobs = []
+    for n, chunk in enumerate(chunks):
+        consult = LIB + "".join(q[2] for q in chunk if q[2])
+        jobs.append({"id": "%s_%d" % (tag, n), "consult": consult, "queries": [q[1] for q in chunk], "max_answers": 1, "timeout_ms": 20000, "fresh": True})
+    res = core.vrun_query(ctx.prop, jobs, tag=tag)
+    for job, chunk in zip(jobs, chunks):
         rec = res.get(job["id"], {})
-        chunk = queries[j:j + per_job]
         results = rec.get("results")
         for i, q in enumerate(chunk):
             if results is None or i >= len(results):
@@ -618,7 +626,9 @@ def bisect(ctx, panicking, qparts, opnames, tag):
 
 
 def run(ctx):
-    import re
+    import re, time
+    t_start = time.time()
+    phase = {}
     rng = ctx.rng
     failures, tie_breaks = [], []
     dist = {"class": {}, "rep_pairs": 0, "byte_len_mod8": {}, "ops_per_observation": len(FIELDS)}
@@ -649,13 +659,15 @@ def run(ctx):
         dist["byte_len_mod8"][m] = dist["byte_len_mod8"].get(m, 0) + 1
         if "base_a" in c:
             ra, rb = reps_tail(c["base_a"], c["off_a"], rng), reps_tail(c["base_b"], c["off_b"], rng)
-            pairs = [(x, y) for x in ra[:5] for y in rb[:5]] + [(ra[5], y) for y in rb[:5]] + [(x, rb[6]) for x in ra[:5]]
+            pairs = rng.sample([(x, y) for x in ra[:5] for y in rb[:5]], 8) + [(ra[5], y) for y in rng.sample(rb[:5], 2)] + [(x, rb[6]) for x in rng.sample(ra[:5], 2)]
         else:
-            ra, rb = reps_closed(a, rng, big), reps_closed(b, rng, big)
+            ra, rb = reps_closed(a, rng, big, c["cls"] == "edge"), reps_closed(b, rng, big, c["cls"] == "edge")
             if big:
-                pairs = [(ra[0], rb[0])] + [(ra[0], y) for y in rb[1:]] + [(x, rb[0]) for x in ra[1:]] + [(ra[4], rb[5]), (ra[6], rb[4])]
+                pairs = [(ra[0], rb[0])] + [(ra[0], y) for y in rng.sample(rb[1:], 3)] + [(x, rb[0]) for x in rng.sample(ra[1:], 3)] + [(ra[4], rb[5]), (ra[6], rb[4])]
             else:
-                pairs = [(ra[0], y) for y in rb] + [(x, rb[0]) for x in ra[1:]] + [(rng.choice(ra), rng.choice(rb)) for _ in range(12)]
+                pairs = [(ra[0], rb[0])] + [(ra[0], y) for y in rng.sample(rb[1:], 5)] + [(x, rb[0]) for x in rng.sample(ra[1:], 5)] + [(rng.choice(ra), rng.choice(rb)) for _ in range(3)]
+            if c["cls"] == "edge":      # fixed: every construction path of a against the literal b
+                pairs = [(x, rb[0]) for x in ra]
         for (ka, ga), (kb, gb) in pairs:
             addq(queries, "c%d_%d" % (ci, len(queries)), "%s, %s, " % (ga("A"), gb("B")), big, c["k"], "", (ci, ka, kb))
         # strings in clause heads / bodies (separate jobs: a rejected clause must not disturb the others)
@@ -670,6 +682,7 @@ def run(ctx):
     answers = run_queries(ctx, queries, "qa", per_job=ctx.scale(200, 400))
     answers.update(run_queries(ctx, clause_queries, "qk", per_job=40))
     allq = queries + clause_queries
+    phase["closed_queries"] = round(time.time() - t_start, 1)
     panicking, rerun = recheck(ctx, allq, answers, qinfo, "qr")
     dist["queries_rerun_alone"] = len(rerun)
     dist["queries_panicking_first_pass"] = sum(1 for q in allq if panic_class(answers.get(q[0])) is not None)
@@ -721,6 +734,7 @@ def run(ctx):
                 if wtext == major: continue
                 for (qid, ka, kb, _) in members[:2]:
                     fail(shape_key("writeq", ka, kb), "writeq text of a string depends on how the string was built", qtext_of[qid][:700], repr(wtext), repr(major))
+    phase["closed_before_coq"] = round(time.time() - t_start, 1)
     bad_idx, errs = core.coq_eval_bools(ctx.prop, IMPORTS, bools, chunk=ctx.scale(300, 500), tag="ca")
     for _, t in errs:
         tie_breaks.append({"kind": "coq-eval", "what": "model evaluation shard failed (closed strings)", "detail": t[-1500:]})
@@ -743,6 +757,7 @@ def run(ctx):
         qid, ka, kb, _ = members[0]
         fail(shape_key("some-operation", ka, kb), "an observation differs from the prediction on character lists", qtext_of[qid][:700], rec[:600], "predict")
     n_closed = len(bools)
+    phase["closed_done"] = round(time.time() - t_start, 1)
 
     # ============================================================ C: partial strings
     pcases = gen_partial_cases(rng, ctx)
@@ -755,7 +770,7 @@ def run(ctx):
         rb = reps_partial(c["p2"], k2, tb, rng)
         if c["k2"] == "same":   # copy_term would make a fresh tail variable
             ra = [r for r in ra if r[0] != "copied_partial_string"]; rb = [r for r in rb if r[0] != "copied_partial_string"]
-        pairs = [(ra[4], y) for y in rb] + [(x, rb[0]) for x in ra] + [(rng.choice(ra), rng.choice(rb)) for _ in range(6)]
+        pairs = [(ra[4], y) for y in rb] + [(x, rb[0]) for x in ra] + [(rng.choice(ra), rng.choice(rb)) for _ in range(4)]
         for (ka, ga), (kb, gb) in pairs:
             qid = "p%d_%d" % (pi, len(pq))
             prefix = "%s, %s, " % (ga("A"), gb("B"))
@@ -812,6 +827,7 @@ def run(ctx):
         qid, ka, kb = members[0]
         fail(shape_key("some-operation", ka, kb, "pstr:partial-"), "an observation of a partial string differs from the prediction", ptext[qid][:700], rec[:600], "ppredict")
 
+    phase["partial_done"] = round(time.time() - t_start, 1)
     # ============================================================ layout tie through the heap hook
     lstrings = []
     seen = set()
@@ -876,6 +892,8 @@ def run(ctx):
     dist["cases_with_more_than_one_observation"] = n_multi
     dist["closed_cases"] = len(allcases); dist["partial_cases"] = len(pcases); dist["layout_strings"] = len(lbools)
     dist["failure_counts_by_key"] = dict(sorted(per_key.items()))
+    phase["all_done"] = round(time.time() - t_start, 1)
+    dist["seconds_elapsed_at"] = phase
     samples = [{"query": q[1][:300]} for q in (queries[:2] + queries[len(queries) // 2:len(queries) // 2 + 2] + clause_queries[:1] + pq[:2])]
     samples.append({"heap": lines[5][:200], "result": (lres.get("5") or "")[:200]})
     return {"evaluations": evaluations, "distinct_nontrivial": distinct,
